@@ -1,0 +1,76 @@
+//go:build verif
+
+// Contracts for package eventlogstore, read by /verif/govc. Comments only.
+package eventlogstore
+
+// firstMatch(ops, h): index of the first entry of ops whose printed hash is h, len(ops) if none.
+// (definitional axiom: such an index exists and is unique)
+//@ spec func firstMatch(ops Slice<Iface>, h Str) Int
+//@ axiom firstMatch_def: forall ops Slice<Iface>, h Str :: len(ops) >= 0 ==> 0 <= firstMatch(ops, h) && firstMatch(ops, h) <= len(ops) && (firstMatch(ops, h) < len(ops) ==> hs(ops[firstMatch(ops, h)]) == h) && (forall i Int :: 0 <= i && i < firstMatch(ops, h) ==> hs(ops[i]) != h)
+
+// read returns the window of ops that starts at the bound (or after it when not inclusive; at the
+// beginning when the bound is not in ops) and holds at most `amount` entries.
+//@ func (*orbitDBEventLogStore).read
+//@   props C08
+//@   flag nilcalls
+//@   requires amount >= 0
+//@   requires forall i Int :: 0 <= i && i < len(ops) ==> ops[i] != nil
+//@   ghost f := firstMatch(ops, cidStr(hash))
+//@   ghost s := (f < len(ops) ? f : 0) + (inclusive ? 0 : 1)
+//@   ghost amount0 := amount
+//@   loop 1 invariant startIndex == 0
+//@   loop 1 invariant forall j Int :: 0 <= j && j < i ==> hs(ops[j]) != cidStr(hash)
+//@   loop 2 invariant amount >= 0 && amount + len(result) == amount0
+//@   loop 2 invariant len(result) == max(0, min(amount0, i - s))
+//@   loop 2 invariant forall j Int :: 0 <= j && j < len(result) ==> result[j] == ops[s + j]
+//@   loop 2 invariant startIndex == s
+//@   ensures len(result) == max(0, min(amount0, len(ops) - s))
+//@   ensures forall j Int :: 0 <= j && j < len(result) ==> result[j] == ops[s + j]
+//@   modifies nothing
+
+// query: exact windows of the listing L = Index().Get("") (oldest first), n = len(L), A = normalised amount.
+//   GT x  : L[p+1 : min(n, p+1+A)]        GTE x : L[p : min(n, p+A)]
+//   LT x  : L[max(0, p-A) : p]            LTE x : L[max(0, p+1-A) : p+1]       none : L[max(0, n-A) : n]
+// where p is the position of x in L (hashes of a log are pairwise distinct).
+//@ func (*orbitDBEventLogStore).query
+//@   props C08
+//@   flag nilcalls
+//@   ghost V := idxGet(idxState(o.BaseStore.index), "")
+//@   ghost L := unbox(V, "Slice<Iface>")
+//@   ghost n := len(L)
+//@   ghost has := options != nil
+//@   ghost A := (!has || options.Amount == nil) ? 1 : (deref(options.Amount) == 0 ? 1 : (deref(options.Amount) > 0 - 1 ? deref(options.Amount) : n))
+//@   ghost gt := has && options.GT != nil
+//@   ghost gte := has && options.GT == nil && options.GTE != nil
+//@   ghost fwd := has && (options.GT != nil || options.GTE != nil)
+//@   ghost hf := cidStr(gt ? deref(options.GT) : deref(options.GTE))
+//@   ghost lt := has && options.LT != nil
+//@   ghost lte := has && options.LT == nil && options.LTE != nil
+//@   ghost incl := !has || options.LTE != nil || options.LT == nil
+//@   ghost hb := cidStr(lt ? deref(options.LT) : (lte ? deref(options.LTE) : zerov("V_cid_Cid")))
+//@   ghost pf := firstMatch(L, hf)
+//@   ghost sf := (pf < n ? pf : 0) + (gt ? 1 : 0)
+//@   ghost pb := firstMatch(L, hb)
+//@   ghost e := pb < n ? (incl ? pb + 1 : pb) : (incl ? n : n - 1)
+//@   requires o.BaseStore.index != nil
+//@   requires has ==> !(options.GT != nil && options.GTE != nil) && !(options.LT != nil && options.LTE != nil)
+//@   requires forall i Int :: 0 <= i && i < n ==> L[i] != nil
+//@   requires forall a Int, b Int :: 0 <= a && a < b && b < n ==> hs(L[a]) != hs(L[b])
+//@   loop 1 ghost E0 := events
+//@   loop 1 invariant len(events) == n && 0 - 1 <= i && i <= n / 2 - 1
+//@   loop 1 invariant forall j Int :: i < j && j < n - 1 - i ==> events[j] == E0[n - 1 - j]
+//@   loop 1 invariant forall j Int :: (0 <= j && j <= i) || (n - 1 - i <= j && j < n) ==> events[j] == E0[j]
+//@   assert @ after loop 1: forall j Int :: 0 <= j && j < n ==> events[j] == L[n - 1 - j]
+//@   assert @ after loop 1: pb < n ==> hs(events[n - 1 - pb]) == hb
+//@   assert @ after loop 1: pb < n ==> firstMatch(events, hb) == n - 1 - pb
+//@   assert @ after loop 1: pb == n ==> firstMatch(events, hb) == n
+//@   loop 2 ghost R0 := result
+//@   loop 2 ghost m := len(result)
+//@   loop 2 invariant len(result) == m && 0 - 1 <= i && i <= m / 2 - 1
+//@   loop 2 invariant forall j Int :: i < j && j < m - 1 - i ==> result[j] == R0[m - 1 - j]
+//@   loop 2 invariant forall j Int :: (0 <= j && j <= i) || (m - 1 - i <= j && j < m) ==> result[j] == R0[j]
+//@   ensures tag(V) == 0 ==> len(result) == 0 && result1 == nil
+//@   ensures tag(V) != 0 && result1 == nil && fwd ==> len(result) == max(0, min(A, n - sf))
+//@   ensures tag(V) != 0 && result1 == nil && fwd ==> (forall j Int :: 0 <= j && j < len(result) ==> result[j] == L[sf + j])
+//@   ensures tag(V) != 0 && result1 == nil && !fwd ==> len(result) == max(0, min(A, e))
+//@   ensures tag(V) != 0 && result1 == nil && !fwd ==> (forall j Int :: 0 <= j && j < len(result) ==> result[j] == L[e - len(result) + j])
